@@ -1,10 +1,13 @@
 package dp
 
 import (
+	"fmt"
 	"math/rand"
 	"net"
 	"net/netip"
+	"time"
 
+	"github.com/scionproto/scion/pkg/scrypto"
 	"github.com/scionproto/scion/pkg/slayers"
 	spath "github.com/scionproto/scion/pkg/slayers/path"
 	"github.com/scionproto/scion/pkg/slayers/path/scion"
@@ -203,4 +206,68 @@ func (n *Net) reply(w *vt.Writer, got []byte, o JourneyOpts) ([]byte, bool) {
 	}
 	w.Emit(map[string]any{"ev": "reply", "how": how, "pkt": n.C.Proj(raw, "full")})
 	return raw, true
+}
+
+// RunOHP executes a one-hop-path journey over one link: the control service host of AS src (the
+// harness plays it: it owns the AS key) sends a packet with a one-hop path to a host or service in
+// the neighbour AS; the neighbour's router completes the path; the receiver reverses the completed
+// path with the real code and answers.
+func (n *Net) RunOHP(w *vt.Writer, id int, e End, svc bool, rng *rand.Rand) {
+	src, dst := e.AS, e.PeerAS
+	mac, err := scrypto.InitMac(n.C.Keys[src])
+	if err != nil {
+		vt.Fatal("mac: %v", err)
+	}
+	ohp, err := snetpath.NewOneHop(e.If, time.Now().Add(-time.Minute), 63, mac)
+	if err != nil {
+		vt.Fatal("ohp: %v", err)
+	}
+	sh, dh := n.T.HostAddr(src, 1), n.T.HostAddr(dst, 2)
+	dhs := netip.AddrPortFrom(dh, 40002).String()
+	pay := make([]byte, 1+rng.Intn(40))
+	rng.Read(pay)
+	spec := PktSpec{SrcIA: n.T.ASes[src].IA, DstIA: n.T.ASes[dst].IA, SrcHost: sh, DstHost: dh,
+		SrcPort: 40001, DstPort: 40002, Path: ohp, L4: "udp", Payload: pay, HBH: id%2 == 0,
+		TC: uint8(rng.Intn(256)), Flow: uint32(rng.Intn(1 << 20)), Rng: rng}
+	if svc {
+		spec.DstSVC = true
+		dhs = fmt.Sprintf("10.%d.0.100:30252", dst+1)
+	}
+	raw, err := Build(spec)
+	if err != nil {
+		vt.Fatal("build ohp: %v", err)
+	}
+	ifs := []any{map[string]any{"as": n.T.ASes[src].Name, "if": int(e.If)},
+		map[string]any{"as": n.T.ASes[dst].Name, "if": int(e.PeerIf)}}
+	rev := "pather"
+	if svc {
+		rev = "none" // the service instance is not one of our hosts
+	}
+	w.Emit(map[string]any{"ev": "reset", "id": id, "mode": "ohp", "topo": n.T.Name,
+		"src": n.T.ASes[src].Name, "dst": n.T.ASes[dst].Name,
+		"sh": netip.AddrPortFrom(sh, 40001).String(), "dh": dhs, "ifs": ifs, "pt": "ohp", "l4": "udp",
+		"rev": rev, "desc": NoDesc(), "pkt": n.C.Proj(raw, "full")})
+	a := Arrival{AS: src, R: e.Router, Scope: "int",
+		Src: &net.UDPAddr{IP: sh.AsSlice(), Port: 40001}, Raw: raw}
+	out := n.walk(w, a, "req")
+	if out.Kind != "host" {
+		return
+	}
+	j := "req"
+	if out.Slow {
+		j = "scmp"
+	}
+	n.hostEvent(w, out, j)
+	if out.Slow || rev == "none" || out.HostAS != dst || udpStr(out.HostAddr) != dhs {
+		return
+	}
+	rep, ok := n.reply(w, out.Raw, JourneyOpts{Rev: "pather", Rng: rng})
+	if !ok {
+		return
+	}
+	out = n.walk(w, Arrival{AS: out.ByAS, R: out.ByR, Scope: "int",
+		Src: &net.UDPAddr{IP: dh.AsSlice(), Port: 40002}, Raw: rep}, "rep")
+	if out.Kind == "host" {
+		n.hostEvent(w, out, "rep")
+	}
 }
